@@ -2,7 +2,7 @@
 # mutall.sh [seed-id ...] : run every stored seeded change against its property's quick check (and thorough if
 # QUICK misses and THOROUGH=1) and print a detection matrix. Uses scratch worktrees; /repo is not touched.
 cd /verif
-ids="$@"; [ -z "$ids" ] && ids=$(ls seeded)
+ids="$@"; [ -z "$ids" ] && ids=$(ls -d seeded/*/ | xargs -n1 basename)
 for id in $ids; do
   prop=${id%%-*}
   out=$(TAIL=400 J=${J:-6} /verif/tools/muttest.sh /verif/seeded/$id/patch.diff $prop quick 2>&1)
